@@ -15,6 +15,7 @@ import shutil
 import tempfile
 
 from mc import compileharness as H
+from mc.checks import C07
 from mc.checks import C09
 from mc.env import error
 
@@ -223,4 +224,14 @@ class FileBorrowers(object):
             shutil.rmtree(d, ignore_errors=True)
 
 
-FAMILIES = [BorrowerLists(), FileBorrowers(), CopyAges(), RequestedByModuleName()]
+class SeveralPerFile(C07.SeveralPerFile):
+    """C07's worlds of multi-module files over two sources, with a borrower that holds one of the modules: a module for which a
+    sound copy is found (later in the same file, in its own file, at a later source) is compiled, never borrowed; the broken
+    module of an explicitly requested file stays eligible under noDeps."""
+    prefix = 'C19'
+
+    def select(self, world):
+        return bool(world.get('borrowers'))
+
+
+FAMILIES = [BorrowerLists(), FileBorrowers(), CopyAges(), RequestedByModuleName(), SeveralPerFile()]
